@@ -710,11 +710,31 @@ func runW4C09(t *testing.T, job *Job, seed uint64, rp *Replay) RunOut {
 			text := d.TOML()
 			var log []string
 			text, log = model.MutateTOML(r, text, r.Range(1, 6))
+			// what editors on other systems leave in a file
+			switch r.Intn(8) {
+			case 0:
+				text = "\xEF\xBB\xBF" + text // UTF-8 byte order mark
+				log = append(log, "BOM")
+			case 1:
+				text = strings.ReplaceAll(text, "\n", "\r\n")
+				log = append(log, "CRLF")
+			case 2:
+				text = "\xEF\xBB\xBF" + strings.ReplaceAll(text, "\n", "\r\n")
+				log = append(log, "BOM+CRLF")
+			}
 			data := []byte(text)
 			fault := ""
 			if r.Chance(0.3) {
 				data, fault = model.StorageFault(r, data)
 				ro.Faults["storage_"+strings.Fields(fault)[0]]++
+			} else if r.Chance(0.1) {
+				// an interrupted save that got only the first few bytes out
+				n := r.Intn(9)
+				if n < len(data) {
+					data = data[:n]
+				}
+				fault = fmt.Sprintf("first %d bytes only", n)
+				ro.Faults["storage_first_bytes"]++
 			}
 			contents = append(contents, data)
 			notes = append(notes, fmt.Sprintf("edits=%v fault=%q", log, fault))
